@@ -241,7 +241,7 @@ prop("C04", ["prims.go", "c04.go"],
 prop("C09", ["prims.go", "c09a.go"],
      [run("mux", "harnessC09a", ["accept-matched", "accept-timed-out", "probe-done", "stream-dropped-before-id", "retry-of-timed-out-accept", "dial-inside-window"], dpor=True,
           quick={"max_reversals": 1, "bound": "MuxBroker: optionally an inbound stream dropped by its peer before the ID was written, <= 2 inbound dials with IDs x1, x2 NOT assumed distinct at symbolic instants t1 <= t2, <= 1 local Accept(a) at tA, then a matched pair after every timer expired, on a fresh ID or on the ID whose Accept timed out; symbolic clock (ties explored), all schedules with <= 1 reversal; every inbound stream is accepted or closed by the broker"},
-          thorough={"max_reversals": 2, "max_wall_s": 1500, "bound": "as quick with <= 2 reversals"}),
+          thorough={"max_reversals": 2, "max_wall_s": 2700, "bound": "as quick with <= 2 reversals (about 100 000 schedules, 7-9 min when measured)"}),
       run("grpc", "harnessC09grpc", ["history-done", "lonely-accept", "fresh-pair", "retry-of-timed-out-id", "closed"], files=["prims.go", "c07.go"],
           quick={"bound": "GRPCBroker without multiplexing, real stream pumps: <= 2 Dial calls nobody accepts (IDs not assumed distinct) and <= 1 Accept nobody dials, at symbolic instants; then a routed pair (accept, symbolic gap <= 4 s, dial) on a fresh ID or on the ID whose dial timed out earlier; then Close of both brokers", "params": {"as_c07": 0}}),
       run("grpc-mux", "harnessC09mux", ["history-done", "fresh-pair", "closed"], files=["prims.go", "c08.go"],
@@ -257,7 +257,7 @@ NETRPC = "net/rpc model: Call(\"Svc.Method\") runs the real registered receiver 
 prop("C06", ["prims.go", "c06.go"],
      [run("routing", "harnessC06", ["dispensed", "routed"], dpor=True,
           quick={"max_reversals": 2, "bound": "two Dispense calls + two symbolic distinct IDs accepted on the host and dialled from the plugin within a symbolic gap < 5 s in either order; all schedules with <= 2 reversals"},
-          thorough={"max_reversals": 3, "max_wall_s": 1700, "bound": "as quick with <= 3 reversals (260 747 schedules, 14.7 M solver queries, 13 min on 16 cores when measured)"}),
+          thorough={"max_reversals": 3, "max_wall_s": 3000, "bound": "as quick with <= 3 reversals (about 262 000 schedules, 15 M solver queries, 12-15 min on 16 cores when measured)"}),
       run("nextid", "harnessC20nextid", ["ids-distinct"], dpor=True, files=["prims.go", "c20.go"], quick={"max_reversals": 2, "params": {"as": 6}, "bound": "two goroutines each taking two IDs from both broker kinds, counter value symbolic (wrap-around included); all schedules with <= 2 reversals"}),
       run("mux-history", "harnessC09a", ["accept-matched", "dial-inside-window", "probe-done"], files=["prims.go", "c09a.go"],
           quick={"bound": "C09's MuxBroker history run read for C06 (canonical schedule): with another dial pending on a different ID, an Accept(a) and a dial for a that arrives within four seconds of it are matched"}),
